@@ -83,7 +83,10 @@ def snapshot(comp):
         for k, v in c.items():
             vals = v if isinstance(v, list) else [v]
             items.append((k, [(type(x).__name__, sorted((pk, repr(pv)) for pk, pv in getattr(x, "params", {}).items()),
-                               repr(getattr(x, "dt", None)), str(x) if isinstance(x, str) else "") for x in vals]))
+                               repr(getattr(x, "dt", None)), str(x) if isinstance(x, str) else "",
+                               # a mapping-valued value (vRecur): its parts as they are held, scalar or list
+                               repr(sorted((mk, repr(mv)) for mk, mv in x.items())) if isinstance(x, dict) else "",
+                               repr([str(i) for i in getattr(x, "cats", [])])) for x in vals]))
         snap.append((c.name, items, len(c.subcomponents)))
     return snap
 
@@ -355,6 +358,12 @@ def run(ctx: Ctx):
     cal.add_component(ev1)
     cal.add_component(ev2)
     trees.append(cal)
+    # rule parts supplied as scalars, tuples and lists (a serialiser may wrap them for its own use, not in the tree)
+    evr = Event()
+    evr.add("rrule", {"freq": "daily", "count": 10, "byday": ("MO", "TU"), "bymonth": [1, 2], "interval": 1})
+    evr.add("exrule", {"FREQ": "weekly", "until": datetime(2025, 1, 1, 12, tzinfo=_ZI("UTC")), "wkst": "SU"})
+    evr.add("categories", ["x", "y"])
+    trees.append(evr)
     if len(trees) < 10:
         raise Machinery("purity step: too few trees")
     for t in trees:
